@@ -125,6 +125,16 @@ func execOp(line string) (res string) {
 	bad := "bad-op"
 	curve := bec.S256()
 	switch op {
+	case "seq":
+		// sub-ops separated by " | ", executed back to back in this process; answers joined the same way
+		var outs []string
+		for _, sub := range strings.Split(strings.Join(a, " "), " | ") {
+			if f := strings.Fields(sub); len(f) == 0 || !seqOps[f[0]] {
+				return bad
+			}
+			outs = append(outs, execOp(sub))
+		}
+		return strings.Join(outs, " | ")
 	case "b58.enc":
 		if !argc(1) {
 			return bad
